@@ -153,12 +153,18 @@ def law_for(kind: str, size: float):
         return [dict(end_size=size, c2c_expansion=0.85, preserve="end_size")], [2, code(size)]
     if kind == "C":
         return [dict(count=5, c2c_expansion=1.15)], [3, code(1.15)]
+    if kind == "D":
+        return [dict(count=5, c2c_expansion=0.85)], [3, code(0.85)]
     if kind == "T":
         return [dict(count=4, total_expansion=3.0)], [3, int(round(1e6 * math.log(3.0) / 3))]
     if kind == "M":
         return [dict(length_ratio=0.4, start_size=size, c2c_expansion=1.1, preserve="start_size"),
                 dict(length_ratio=0.6, count=3, c2c_expansion=1.3)], [0, 0]
     raise ValueError(kind)
+
+
+SANDWICH = {"Variant": '"fixed"', "Topos": g.tla_set(["row3", "ell3"]), "Rot1Choice": "{1}", "RotChoice": "{1, 4, 30, 43}",
+            "ChopOpts": g.tla_set(["A2"]), "MaxChopped": "1", "Cover": "TRUE", "AllOrders": "FALSE", "PassBound": "4"}
 
 
 def lattice_configs(ctx: Ctx, rng: random.Random, limit: int) -> None:
@@ -170,6 +176,14 @@ def lattice_configs(ctx: Ctx, rng: random.Random, limit: int) -> None:
     rng.shuffle(cfgs)
     cfgs.sort(key=lambda c: 0 if c["nfam"] < 3 * c["nb"] else 1)
     cfgs = cfgs[:limit]
+    # sandwiches: a family with TWO user chops of the same count that do not meet on any edge (an unchopped block between
+    # them takes a different law on different edges): every shared edge still has one physical sequence of sizes
+    extra = g.model_check(ctx, SANDWICH, ["TypeOK", "OutcomeOK", "WrittenAgree", "Complete"], timeout=2400, emit=True).records
+    extra = [c for c in extra if c["expected"] == "Written" and c["multilaw"] and not c["clash"]]
+    rng.shuffle(extra)
+    for c in extra[: limit // 4]:
+        c["sandwich"] = True
+    cfgs = cfgs + extra[: limit // 4]
     recs, meta = [], {}
     for cfg in cfgs:
         sp = []
@@ -198,12 +212,32 @@ def lattice_configs(ctx: Ctx, rng: random.Random, limit: int) -> None:
                     breq.append([0, 0])
                     continue
                 kind = "M" if len(secs) > 1 else rng.choice(["S", "E", "C", "T", "S", "E"])
+                if cfg.get("sandwich"):
+                    kind = rng.choice(["C", "D"])        # equal counts, different expansions
                 kinds.add(kind)
                 kws, rq = law_for(kind, 0.07 * scale * rng.uniform(0.7, 1.3))
+                if cfg.get("sandwich"):
+                    rq = [0, 0]                           # which law an in-between wire takes is not promised; equality on shared edges is
                 for kw in kws:
                     op.chop(a, **kw)
                 breq.append(rq)
             req.append(breq)
+            # curved edges: an arc on one or two of the block's twelve edges (its length, not its chord, is what is graded)
+            if not cfg.get("sandwich") and rng.random() < 0.5:
+                for _e in range(rng.choice([1, 2])):
+                    slot = rng.randrange(12)
+                    c1, c2 = (slot, (slot + 1) % 4) if slot < 4 else ((slot, 4 + (slot + 1) % 4) if slot < 8 else (slot - 8, slot - 4))
+                    pa, pb = pts[c1], pts[c2]
+                    d = vsub(pb, pa)
+                    n = vcross(d, [0.3, -0.5, 0.8])
+                    mid = vadd(vmul(vadd(pa, pb), 0.5), vmul(n, rng.uniform(0.15, 0.35) * vnorm(d) / max(vnorm(n), 1e-12)))
+                    if slot < 4:
+                        op.bottom_face.add_edge(slot, cb.Arc(mid))
+                    elif slot < 8:
+                        op.top_face.add_edge(slot - 4, cb.Arc(mid))
+                    else:
+                        op.add_side_edge(slot - 8, cb.Arc(mid))
+                    kinds.add("arc")
             mesh.add(op)
         try:
             mesh.assemble()
